@@ -243,8 +243,28 @@ class Inliner:
         body = list(h.body)
         if body and isinstance(body[0], ast.Expr) and isinstance(body[0].value, ast.Constant) and isinstance(body[0].value.value, str):
             body = body[1:]
-        if len(body) == 1 and isinstance(body[0], ast.Return) and body[0].value is not None and not isinstance(h, ast.AsyncFunctionDef):
-            return body[0].value
+        if isinstance(h, ast.AsyncFunctionDef):
+            return None
+        return self._returns_as_expr(body)
+
+    def _returns_as_expr(self, body: list[ast.stmt]) -> ast.AST | None:
+        """`return e`  |  `if c: return a` … `return z`  |  `if c: return a else: return b`  as one (conditional) expression."""
+        if not body:
+            return None
+        s = body[0]
+        if isinstance(s, ast.Return):
+            return s.value if s.value is not None else ast.Constant(value=None)
+        if isinstance(s, ast.If):
+            then = self._returns_as_expr(s.body)
+            if then is None:
+                return None
+            other = self._returns_as_expr(s.orelse) if s.orelse else None
+            if s.orelse and other is None:
+                return None
+            rest = other if s.orelse else self._returns_as_expr(body[1:])
+            if rest is None:
+                return None
+            return ast.IfExp(test=s.test, body=then, orelse=rest)
         return None
 
     def subst_expr_helpers(self, expr: ast.AST, cls, depth: int = 3) -> ast.AST:
